@@ -71,7 +71,8 @@ func H_l3_legacy() {
 		old, err := NewSlimTrie(c.encoder(), c.keys, c.values(), vOptCase(c.optc))
 		vAssert(err == nil, "build-ok")
 		vTo0510(old.inner)
-		stream, _ := old.Marshal()
+		vReserved0510(old.inner)
+		stream := vOldMarshal(old.inner)
 		vSetVersion(stream, "0.5.10")
 		st, _ := NewSlimTrie(c.encoder(), nil, nil)
 		err = st.Unmarshal(stream)
@@ -360,6 +361,38 @@ func vTo0510(ns *Slim) {
 	}
 }
 
+// vLegacyLoad0510 loads the 0.5.10-layout stream (writer model G.2) of the trie described by c.
+func vLegacyLoad0510(c *vT, ver string) (*SlimTrie, error) {
+	old, err := NewSlimTrie(c.encoder(), c.keys, c.values(), vOptCase(c.optc))
+	if err != nil {
+		return nil, err
+	}
+	vTo0510(old.inner)
+	vReserved0510(old.inner)
+	stream := vOldMarshal(old.inner)
+	vSetVersion(stream, ver)
+	st, _ := NewSlimTrie(c.encoder(), nil, nil)
+	err = st.Unmarshal(stream)
+	return st, err
+}
+
+// vOldMarshal is the old writer's serialisation step: header + protobuf body of the message
+// (the model does not go through the current SlimTrie.Marshal).
+func vOldMarshal(ns *Slim) []byte {
+	w := bytes.NewBuffer(nil)
+	_, err := pbcmpl.Marshal(w, ns)
+	vAssert(err == nil, "model-marshal-ok")
+	return w.Bytes()
+}
+
+// vReserved0510: 0.5.10 writers also emitted field 13 (ShortMinusInner = -17 in every non-empty
+// archived sample), reserved today; it reaches the loaded message as an unknown field.
+func vReserved0510(ns *Slim) {
+	if ns.NodeTypeBM != nil {
+		ns.XXX_unrecognized = []byte{0x68, 0xef, 0xff, 0xff, 0xff, 0xff, 0xff, 0xff, 0xff, 0xff, 0x01}
+	}
+}
+
 func H_l2_legacy0510() {
 	c := &vT{n: vParam("n"), enc: vParam("enc"), optc: vParam("opt")}
 	c.keys = vSymKeys(vLens(vParam("lens"), c.n, vParam("L")), true)
@@ -378,7 +411,8 @@ func H_l2_legacy0510() {
 	old, err := NewSlimTrie(c.encoder(), c.keys, c.values(), vOptCase(c.optc))
 	vAssert(err == nil, "build-ok")
 	vTo0510(old.inner)
-	stream, _ := old.Marshal()
+	vReserved0510(old.inner)
+	stream := vOldMarshal(old.inner)
 	vSetVersion(stream, []string{"0.5.10", "0.5.11"}[vParam("hdr")])
 	st, _ := NewSlimTrie(c.encoder(), nil, nil)
 	err = st.Unmarshal(stream)
